@@ -87,7 +87,10 @@ pub fn run_set(run: &Run) -> &'static str {
     match (a, b) {
         (true, true) => "none",
         (false, true) => "B",
-        _ => "A",
+        (true, false) => "A",
+        // no protocol that only one binary has: the search runs it in A (so that nothing is counted
+        // twice), a replay may use either binary
+        (false, false) => "any",
     }
 }
 
@@ -231,7 +234,7 @@ pub fn run_scenario(sc: &'static Scenario, opts: RunnerOpts) -> (Value, i32) {
                             None => continue,
                         };
                         let set = run_set(&run);
-                        if set != this_set() {
+                        if !(set == this_set() || (set == "any" && this_set() == "A")) {
                             local.runs_skipped_other_set += 1;
                             continue;
                         }
@@ -846,7 +849,7 @@ pub fn replay(sc_lookup: fn(&str) -> Option<&'static Scenario>, path: &str, know
             return 2;
         }
     };
-    if run_set(&run) != this_set() {
+    if run_set(&run) != this_set() && run_set(&run) != "any" {
         eprintln!("harness: this replay needs the set {} binary", run_set(&run));
         return 2;
     }
